@@ -3,6 +3,7 @@ package verifsim
 import (
 	"encoding/json"
 	"fmt"
+	mathrand "math/rand"
 	"os"
 	"path/filepath"
 	"runtime"
@@ -101,6 +102,7 @@ func RunOne(t *testing.T, seed uint64, cfg Config, replay []string, strict bool,
 	}
 	start := time.Now()
 	watchdogRun.Add(1)
+	seedGlobalRand(seed)
 	var sim *Sim
 	func() {
 		defer func() {
@@ -572,4 +574,17 @@ func Minimise(t *testing.T, p *Property, rf *ReplayFile, budget time.Duration) *
 		return &orig
 	}
 	return &best
+}
+
+// seedGlobalRand pins the process-wide math/rand source for the run: code under test draws retry jitter and similar
+// from the top-level math/rand functions, which are otherwise seeded at random per process (and rand.Seed is a
+// no-op unless the randseednop debug setting is switched off).
+func seedGlobalRand(seed uint64) {
+	if gd := os.Getenv("GODEBUG"); !strings.Contains(gd, "randseednop=0") {
+		if gd != "" {
+			gd += ","
+		}
+		_ = os.Setenv("GODEBUG", gd+"randseednop=0")
+	}
+	mathrand.Seed(int64(seed)) //nolint:staticcheck
 }
